@@ -166,6 +166,8 @@ def app (w : World) (cfg : Cfg) (T : Ty) (o : Obj) (fs : List Fault) : Bool :=
     match T, o with
     | .coll _ t, .coll _ xs => !t.isAny && appL w cfg t 0 xs fs
     | .tupleHet ts, .coll _ xs => appT w cfg 0 ts xs fs
+    -- a NamedTuple position: the heterogeneous tuple of the field types (bad items by index, wrong arity)
+    | .nt c, .coll _ xs => w.isNT c && appT w cfg 0 (w.ntTys c) xs fs
     | .map _ _ vt, .dict kvs => fs.all headIsIdx && nodupKeys (keysOf kvs) && appKV w cfg vt kvs fs
     | .opt t, o => o != Obj.none && app w cfg t o fs
     | .wrap _ t, o => app w cfg t o fs
@@ -294,6 +296,7 @@ def shapeOK (w : World) : Ty → Err → Bool
   | .wrap _ t, e => shapeOK w t e
   | .coll _ t, .ive es => shapeIColl w t es
   | .tupleHet ts, .ive es => shapeITup w ts es
+  | .nt c, .ive es => shapeITup w (w.ntTys c) es
   | .map _ kt vt, .ive es => shapeIMap w kt vt es
   | .cls c, .cve es => shapeC w (w.fields c) es
   | .td c, .cve es => shapeC w (w.fields c) es
